@@ -110,6 +110,15 @@ check("C12", "Both trace monitors derive from the API / packet history the set o
       "over horizons up to hours and with every interface-check setting, and at every park of the other families.",
       Q_NOTE + " Work the daemon forgets to do even when woken is reported by the property that owns that work.", Q_TECH, "DESIGN.md section 7 C12")
 
+check("C08", "Three legs. (a) Compare.tla (class, type, RDATA, count) is model-checked for opposite verdicts and every enumerated pair of record lists is "
+      "replayed through the crate's Probe::tiebreaking from both sides; name_change / hostname_change are replayed against the renaming rule and "
+      "encodability. (b) Two or three real daemons in one simulated world (and single daemons with injected conflicts / competing probes at every "
+      "probe step) run under virtual time; each daemon's trace is judged by TraceRespond, which reads the names in use off the wire and then requires "
+      "every later probe, announcement, answer, additional and goodbye to use them (plus no-take after a conflict, back-off then three fresh probes, "
+      "NameChange events); (c) the combined trace is judged by TraceConflict: all announced, exactly one holds the original names, no shared name.",
+      RESP_NOTE + " A mechanism-level model of the probing protocol (ProbeMech) is part of the growing specification.", RESP_TECH + "; TLC-enumerated cases replayed into the comparison code",
+      "DESIGN.md section 7 C08")
+
 def hooks_commits():
     try:
         out = subprocess.run(["git", "-C", "/repo", "log", "--format=%h %s"], stdout=subprocess.PIPE, text=True).stdout
